@@ -447,10 +447,71 @@ func eqTerm(i *interpreter, t types.Type, x, y value) *Term {
 		return eqTerm(i, x.t, x.v, yi.v)
 	case bigInt:
 		return Eq(x.T, y.(bigInt).T)
+	case rlpBox:
+		yb, ok := y.(rlpBox)
+		if !ok || !types.Identical(x.T, yb.T) {
+			return FalseT
+		}
+		return eqDeep(i, x.T, x.V, yb.V)
+	case *value:
+		return BoolConst(x == y.(*value))
 	}
 	if _, ok := y.(symInt); ok {
 		a, _ := intTerm(x)
 		return Eq(a, y.(symInt).T)
 	}
 	return BoolConst(equals(t, x, y))
+}
+
+// eqDeep is structural equality of two rlp snapshots (pointers are followed,
+// slices compared element-wise): the equality of their encodings.
+func eqDeep(i *interpreter, t types.Type, x, y value) *Term {
+	if isBigIntType(t) {
+		return Eq(x.(bigInt).T, y.(bigInt).T)
+	}
+	switch u := t.Underlying().(type) {
+	case *types.Pointer:
+		xp, yp := x.(*value), y.(*value)
+		if xp == nil || yp == nil {
+			return BoolConst(xp == nil && yp == nil)
+		}
+		return eqDeep(i, u.Elem(), *xp, *yp)
+	case *types.Struct:
+		xs, ys := x.(structure), y.(structure)
+		var cs []*Term
+		for _, k := range rlpVisible(u) {
+			c := eqDeep(i, u.Field(k).Type(), xs[k], ys[k])
+			if c.IsConst() && !c.B {
+				return FalseT
+			}
+			cs = append(cs, c)
+		}
+		return And(cs...)
+	case *types.Slice:
+		xs, ys := x.([]value), y.([]value)
+		if len(xs) != len(ys) {
+			return FalseT
+		}
+		var cs []*Term
+		for k := range xs {
+			c := eqDeep(i, u.Elem(), xs[k], ys[k])
+			if c.IsConst() && !c.B {
+				return FalseT
+			}
+			cs = append(cs, c)
+		}
+		return And(cs...)
+	case *types.Array:
+		xs, ys := x.(array), y.(array)
+		var cs []*Term
+		for k := range xs {
+			c := eqDeep(i, u.Elem(), xs[k], ys[k])
+			if c.IsConst() && !c.B {
+				return FalseT
+			}
+			cs = append(cs, c)
+		}
+		return And(cs...)
+	}
+	return eqTerm(i, t, x, y)
 }
